@@ -195,7 +195,7 @@ def set (s : Symbols) (name : String) (address : Nat) : Res Int :=
           if r != 0 then .ok s1 (-1)
           else
             match findRef s1 name with
-            | none => .ok s1 (-1)                  -- `if (entry == nullptr) { return -1; }` (locked table)
+            | none => .ok s1 (-1)                  -- `if (entry == nullptr) { return -1; }`
             | some r1 => .ok (modifyEntry s1 r1 (fun e => { e with scope := 0, rw := true })) 0
   | some r =>
       match getEntry s r with
